@@ -248,6 +248,9 @@ def rules(chk, db, prefix='', only=None):
 def run(chk, db):
     facts.gate(chk, db, ['nop/utility/bounded_reader.h', 'nop/utility/bounded_writer.h'])
     rules(chk, db)
+    from .. import copyrules
+    copyrules.check(chk, db, 'CP', {'nop::BoundedReader', 'nop::BoundedWriter'}, minimum=4,
+                    text='a copied / moved / assigned bounded wrapper keeps the consumed count, the limit and the wrapped object (the budget is not refreshed)')
     chk.explanation = (
         'Symbolic effect summaries (all paths; conditions as normalised integer polynomials over the fields and parameters) of every '
         'member of BoundedReader and BoundedWriter, one instance per pattern and element type; each primitive is an inductive step on '
